@@ -1,6 +1,8 @@
 """C12 - proxy-generated methods put exactly the declared call on the wire (R12.1 - R12.7)."""
 import re
 import ast as A
+import common as C
+import mir
 
 P = 'zlink-macros/src/proxy'
 GENERATORS = {'generate_method_impl': 'plain', 'generate_chain_method': 'chain-start', 'generate_chain_extension_method': 'chain-extension'}
@@ -139,7 +141,140 @@ def exec_quotes(node, env, lets=None):
     return out
 
 
+CLASS_PREDS = ('is_alphabetic', 'is_alphanumeric', 'is_numeric', 'is_uppercase', 'is_lowercase', 'is_whitespace', 'is_control', 'is_ascii_alphabetic',
+               'is_ascii_alphanumeric', 'is_ascii_digit', 'is_ascii_uppercase', 'is_ascii_lowercase', 'is_ascii_punctuation', 'is_digit')
+
+
+def check_word_boundaries(fx, rep, rule='R12.8'):
+    """the snake_case -> PascalCase conversion starts a new word at underscores and nowhere else (a digit or any other character
+    inside a word does not capitalise the letter that follows it)"""
+    crate = fx.crate('zlink_macros', 'full')
+    conv = [b for b in crate.bodies if not b.in_test and b.kind == 'Fn' and b.path.startswith('proxy::') and
+            any('to_uppercase' in (t['callee'].get('name') or '') for c2 in [b] + C.nested(crate, b) for _, t in c2.iter_terms('call')) and
+            any('to_lowercase' in (t['callee'].get('name') or '') for c2 in [b] + C.nested(crate, b) for _, t in c2.iter_terms('call'))]
+    if len(conv) != 1:
+        rep.bad(rule, 'conversion|anchor', 'zlink-macros/src/proxy/utils.rs', 'expected exactly one case-conversion function (calls to_uppercase and to_lowercase) in the proxy generator, found %d' % len(conv))
+        return
+    body = conv[0]
+    bodies = [body] + C.nested(crate, body)
+    fk = body.path
+
+    def calls(name_sub):
+        return [(c2, blk, t) for c2 in bodies for blk, t in c2.iter_terms('call') if name_sub in (t['callee'].get('name') or '')]
+    preds = [(c2, blk, t) for c2 in bodies for blk, t in c2.iter_terms('call') if (t['callee'].get('name') or '') in CLASS_PREDS and 'char' in (t['callee'].get('def') or '')]
+    splits = [(c2, blk, t) for c2, blk, t in calls('split') if 'str' in (t['callee'].get('def') or '') and len(t['args']) > 1 and mir.op_is_const(t['args'][1], 95)]
+    if splits:
+        # idiom (a): words are the pieces of split('_'); the capitalised character is the first one of each piece
+        ups = calls('to_uppercase')
+        first_ok = False
+        for c2, blk, t in ups:
+            tr = c2.trace(t['args'][0])
+            # payload of Chars::next()
+            src = tr
+            for _ in range(4):
+                if src.get('kind') == 'place':
+                    src = c2.trace_place({'l': src['base']})
+                else:
+                    break
+            if src.get('kind') == 'call' and src['callee'].get('name') == 'next':
+                first_ok = True
+        rep.check(first_ok and not preds, rule, '%s|split-idiom' % fk, body.where(),
+                  'words are the pieces of split(\'_\'); the first character of each piece is upper-cased, the rest lower-cased; no character class test is involved',
+                  'the conversion splits at underscores but %s' % ('a character class test (%s) takes part in it' % sorted({t['callee']['name'] for _, _, t in preds}) if preds
+                                                                   else 'the upper-cased character is not the first one of each piece'))
+        return
+    # idiom (b): one pass with a word-start flag
+    ups = [(c2, blk) for c2, blk, t in calls('to_uppercase') if c2 is body]
+    lows = [(c2, blk) for c2, blk, t in calls('to_lowercase') if c2 is body]
+    flag = None
+    for sw in range(body.n):
+        if body.is_cleanup(sw) or body.term(sw)['k'] != 'switch':
+            continue
+        info = body.switch_info(sw)
+        if not info or info.get('kind') != 'bool' or info['src'].get('kind') != 'local':
+            continue
+        rt, rf = body.reachable(info['true'], avoid=(sw,)), body.reachable(info['false'], avoid=(sw,))
+        up_t = any(b in rt for _, b in ups) and not any(b in rt and b not in rf for _, b in lows)
+        if any(b in rt and b not in rf for _, b in ups) and any(b in rf and b not in rt for _, b in lows) or \
+           any(b in rf and b not in rt for _, b in ups) and any(b in rt and b not in rf for _, b in lows):
+            flag = info['src']['l']
+            flag_sw = sw
+    if flag is None:
+        rep.bad(rule, '%s|shape' % fk, body.where(), 'the case conversion is neither the split(\'_\') form nor a single pass with a word-start flag: where a word starts cannot be established')
+        return
+    bad = []
+    n_st = 0
+    for b, i, st in body.iter_assigns():
+        pl = st['place']
+        if pl['l'] != flag or pl.get('p'):
+            continue
+        n_st += 1
+        # data dependence of the stored value
+        rv = st['rv']
+        srcs = []
+        if rv['k'] == 'use' and rv['op']['k'] == 'const':
+            pass
+        else:
+            ops = mir.rv_operands(rv)
+            for o in ops:
+                tr = body.trace(o)
+                while tr.get('kind') == 'un':
+                    tr = body.trace(tr['a'])
+                if tr.get('kind') == 'call' and (tr['callee'].get('name') or '') in CLASS_PREDS:
+                    bad.append('the flag is assigned from %s(..) (line %s)' % (tr['callee']['name'], st.get('line')))
+                elif tr.get('kind') == 'bin' and tr['op'] in ('Eq', 'Ne') and (mir.op_is_const(tr['a'], 95) or mir.op_is_const(tr['b'], 95)):
+                    pass
+                elif tr.get('kind') in ('const',) or (tr.get('kind') == 'local' and tr.get('l') == flag):
+                    pass
+                else:
+                    bad.append('the flag is assigned from something other than a constant or a comparison with `_` (line %s)' % st.get('line'))
+        # control dependence of the store
+        for sw, tgt in body.control_deps_closure(b):
+            info = body.switch_info(sw)
+            if not info:
+                continue
+            src = info.get('src') or {}
+            if info.get('kind') == 'bool' and src.get('kind') == 'call' and (src['callee'].get('name') or '') in CLASS_PREDS:
+                bad.append('the flag is assigned under a %s(..) test (line %s)' % (src['callee']['name'], st.get('line')))
+    rep.check(n_st > 0 and not bad, rule, '%s|flag-idiom' % fk, body.where(),
+              'the word-start flag is set only by constants and comparisons with `_`, under no character class test',
+              'where a word starts does not depend on underscores alone: %s - a digit (or another non-letter) inside a word makes the next letter upper-case, so `list_2fa_devices` '
+              'is sent as `List2FaDevices` instead of `List2faDevices`' % '; '.join(sorted(set(bad))))
+
+
+SWALLOWERS = ('ok', 'unwrap_or', 'unwrap_or_default', 'unwrap_or_else', 'map_or', 'map_or_else', 'is_ok', 'is_err', 'err', 'or_else', 'iter', 'into_iter')
+SWALLOW_EXEMPT = {}
+
+
+def check_error_discipline(fx, rep, rule='R12.9'):
+    """a syn::Error built while reading the `#[zlink(..)]` attributes of a method or argument reaches the user: it is propagated, never
+    turned into None / a default (the macro would accept the trait and silently ignore what the user declared)"""
+    crate = fx.crate('zlink_macros', 'full')
+    n = 0
+    for b in crate.bodies:
+        if b.in_test or not b.path.startswith('proxy'):
+            continue
+        ordn = 0
+        for blk, t in b.iter_terms('call'):
+            c = t['callee']
+            d = c.get('def') or ''
+            if 'result::Result' not in d or c.get('name') not in SWALLOWERS or 'syn::Error' not in (c.get('args') or ''):
+                continue
+            if t.get('mac'):
+                continue
+            n += 1
+            ordn += 1
+            key = '%s|%s|%d' % (b.path, c.get('name'), ordn)
+            why = SWALLOW_EXEMPT.get('%s|%s' % (b.path, c.get('name')))
+            rep.check(why is not None, rule, key, C.where(b, blk), 'listed: %s' % why,
+                      'a Result<_, syn::Error> is discarded with `.%s()` in %s: an attribute list the processor rejects (unknown or duplicate item, non-string rename) is not reported; '
+                      'the trait is accepted and the whole list - rename, more, oneway - is silently ignored, so the call on the wire is not the declared one' % (c.get('name'), b.path))
+    rep.ok(rule, 'proxy|swallowed-attribute-errors|count', 'zlink-macros/src/proxy', '%d Result<_, syn::Error> values are discarded in the proxy generator' % n)
+
+
 def check(fx, rep, tier):
+    rep.rule('R12.9', 'errors built for `#[zlink(..)]` attribute lists are propagated: no Result<_, syn::Error> in the proxy generator is turned into an Option or a default')
+    rep.rule('R12.8', 'PascalCase conversion: a new word starts at an underscore and nowhere else (split(\'_\') form, or a word-start flag that depends only on constants and comparisons with `_`)')
     rep.rule('R12.1', 'every ArgInfo is built from the attribute/type helpers; every generator takes its records from the shared parser and its struct fields from an emitter reading both facts')
     rep.rule('R12.1b', 'destructive attribute extractors are applied to clones only: all generators see the same argument attributes')
     rep.rule('R12.2', 'each Call-building generator reads is_streaming / is_oneway and emits set_more(true) / set_oneway(true) under them or nothing')
@@ -171,6 +306,10 @@ def check(fx, rep, tier):
                         lets = [y for y in A.nodes(n['body']) if y.get('k') == 'let' and (y.get('pat') or '').replace('mut ', '').strip() == fld]
                         v = lets[-1].get('init') if lets else None
                     txt = A.text(v) if v else ''
+                    if v is not None and v.get('k') not in ('path', 'bool', 'call', 'mcall'):
+                        # a match / if / `?` around the helper call: the facts come from the calls inside
+                        txt += ' ' + ' '.join((y.get('func') if isinstance(y.get('func'), str) else A.text(y.get('func'))) if y.get('k') == 'call' else (y.get('method') or '')
+                                              for y in A.nodes(v) if y.get('k') in ('call', 'mcall'))
                     if v is None or v.get('k') in ('bool',) or txt in ('None', 'false', 'true') or (v.get('k') == 'path' and v.get('text') in ('None', 'false')):
                         bad.append('%s = %s' % (fld, txt or '?'))
                     elif fld == 'is_optional' and 'is_option_type' not in txt and 'Option' not in txt:
@@ -325,4 +464,6 @@ def check(fx, rep, tier):
         ok = ok or (bool(re.search(r'\. await \?\s*\{\s*Ok \(reply\) =>', tk)) and bool(re.search(r'Err \((\w+)\) => Ok \(Err \(\1\)\)', tk)))
         rep.check(ok, 'R12.6', 'reply-mapping|%s' % g, '%s:%s' % (f, n.get('line')), 'arms: Ok(Ok(reply)) -> output, Ok(Err(e)) -> Ok(Err(e)), Err(e) -> Err(e) (or `?` for the last)',
                   'the reply mapping of %s does not have the three arms Ok(Ok) / Ok(Err) -> Ok(Err) / Err -> Err' % g)
+    check_error_discipline(fx, rep)
+    check_word_boundaries(fx, rep)
     return META
